@@ -333,6 +333,11 @@ type vItem struct {
 	frags    []int // raw sender only: fragment sizes (nil: one frame)
 	oversize bool  // larger than the receiver's MaxPayloadBytes
 	jsonVal  *vJSONMsg
+	// kind 'x' only: the wrongly masked frame is this control frame (PingFrame / PongFrame; 0: it
+	// is the data frame itself); typ/payload then follow correctly masked, as a canary that must
+	// never be delivered because the peer has to be disconnected first
+	ctl        byte
+	ctlPayload []byte
 }
 
 type vDir struct {
@@ -655,7 +660,15 @@ func vGenRawDir(rng *rand.Rand, name string, masked bool, thorough bool) *vDir {
 	}
 	if rng.IntN(2) == 0 {
 		t := vType(rng)
-		d.items = append(d.items, vItem{kind: 'x', typ: t, payload: vPayload(rng, t, vBoundaries[rng.IntN(7)])})
+		it := vItem{kind: 'x', typ: t, payload: vPayload(rng, t, vBoundaries[rng.IntN(7)])}
+		if rng.IntN(2) == 0 {
+			it.ctl = []byte{PingFrame, PongFrame}[rng.IntN(2)]
+			it.ctlPayload = vCtlPayload(rng)
+			if len(it.payload) == 0 {
+				it.payload = vPayload(rng, t, 6)
+			}
+		}
+		d.items = append(d.items, it)
 	}
 	// serialise
 	key := func() (k [4]byte) {
@@ -673,7 +686,12 @@ func vGenRawDir(rng *rand.Rand, name string, masked bool, thorough bool) *vDir {
 		case 'o':
 			out = vAppendFrame(out, true, PongFrame, masked, key(), it.payload)
 		case 'x':
-			out = vAppendFrame(out, true, it.typ, !masked, key(), it.payload)
+			if it.ctl != 0 {
+				out = vAppendFrame(out, true, it.ctl, !masked, key(), it.ctlPayload)
+				out = vAppendFrame(out, true, it.typ, masked, key(), it.payload)
+			} else {
+				out = vAppendFrame(out, true, it.typ, !masked, key(), it.payload)
+			}
 			violated = true
 		case 'd':
 			if it.frags == nil {
@@ -949,7 +967,14 @@ func (s *vSession) recv(ws *Conn, d *vDir, who string) {
 			} else {
 				_, data, _, err = s.recvOne(ws, d, it, it.payload, rng)
 			}
-			if err == nil {
+			if err == nil && it.ctl != 0 {
+				what := map[byte]string{PingFrame: "PING", PongFrame: "PONG"}[it.ctl]
+				if who == "server" {
+					s.violation("unmasked-control-frame-accepted-by-server", "server %s delivered %d bytes (%s) of the data frame that FOLLOWED an unmasked %s (%d-byte payload) from the client: the peer was not disconnected", api, len(data), vShort(data), what, len(it.ctlPayload))
+				} else {
+					s.violation("masked-control-frame-accepted-by-client", "client %s delivered %d bytes (%s) of the data frame that FOLLOWED a masked %s (%d-byte payload) from the server: the peer was not disconnected", api, len(data), vShort(data), what, len(it.ctlPayload))
+				}
+			} else if err == nil {
 				if who == "server" {
 					s.violation("unmasked-frame-accepted-by-server", "server %s delivered %d bytes (%s) of an UNMASKED client frame without error", api, len(data), vShort(data))
 				} else {
@@ -957,8 +982,14 @@ func (s *vSession) recv(ws *Conn, d *vDir, who string) {
 				}
 			} else if who == "server" {
 				r.Event("unmasked_frame_refused_by_server", 1)
+				if it.ctl != 0 {
+					r.Event("wrongly_masked_control_frame_refused", 1)
+				}
 			} else {
 				r.Event("masked_frame_refused_by_client", 1)
+				if it.ctl != 0 {
+					r.Event("wrongly_masked_control_frame_refused", 1)
+				}
 			}
 			d.recvComplete.Store(true)
 			s.stage(who+"-recv", "finished (after role violation)")
@@ -1400,7 +1431,7 @@ func (s *vSession) common(c *verifrt.Case) {
 func TestVerif_C59(t *testing.T) {
 	r := verifrt.Start(t, "C59")
 	defer r.Finish()
-	r.SetRule("a case is one client<->server session over a tapped in-memory connection, fully scripted from the PRNG: per direction 1-10 text/binary messages (lengths from {0,1,124..128,65534..65537}, PRNG small/medium, 1 MiB+-1, thorough also 4 MiB), pings and unsolicited pongs in between, sent by Message.Send / Conn.Write+PayloadType / JSON.Send and received by Message.Receive / a payload-type-capturing Codec / Conn.Read / JSON.Receive; limit sessions put MaxPayloadBytes=m on the receiver and straddle m; raw sessions replace one endpoint by a harness-scripted peer (fragments, pings, one wrongly masked frame). One evaluation per delivered (or refused) message and per answered ping; non-trivial = non-empty payload; distinct by (direction, APIs, type, length, payload hash)")
+	r.SetRule("a case is one client<->server session over a tapped in-memory connection, fully scripted from the PRNG: per direction 1-10 text/binary messages (lengths from {0,1,124..128,65534..65537}, PRNG small/medium, 1 MiB+-1, thorough also 4 MiB), pings and unsolicited pongs in between, sent by Message.Send / Conn.Write+PayloadType / JSON.Send and received by Message.Receive / a payload-type-capturing Codec / Conn.Read / JSON.Receive; limit sessions put MaxPayloadBytes=m on the receiver and straddle m; raw sessions replace one endpoint by a harness-scripted peer (fragments, pings, one wrongly masked data or PING/PONG frame, the latter followed by a correctly masked data frame that must not be delivered). One evaluation per delivered (or refused) message and per answered ping; non-trivial = non-empty payload; distinct by (direction, APIs, type, length, payload hash)")
 	r.Assume("harness RFC 6455 frame parser/writer (vParseFrames/vAppendFrame) and encoding/json are correct")
 	r.Assume("the tapped in-memory connection delivers bytes in order (its own tap is what the wire oracle reads)")
 	r.Assume("synctest.Wait() returning with an endpoint still unfinished means the endpoint can never finish (all blocking in the harness is sync.Cond / channel based)")
@@ -1509,6 +1540,7 @@ func TestVerif_C59(t *testing.T) {
 	r.Require("delivered_intact_after_oversize", 50)
 	r.Require("unmasked_frame_refused_by_server", 10)
 	r.Require("masked_frame_refused_by_client", 10)
+	r.Require("wrongly_masked_control_frame_refused", 10)
 	r.Require("fragmented_messages_received", 50)
 	for _, b := range vBoundaries {
 		r.Require(fmt.Sprintf("delivered_len_%d", b), 12)
